@@ -166,7 +166,7 @@ inductive Op1 where
   | translate | scale
   | toCart | toPolar | toSpherical | az
   | toRgb | toRgba | toHsl | toHsla | toLinear | toSrgb | toColor3 | toColor4
-  | chanR | chanH     -- `a.r()`, `a.h()`   colour channel accessors (per colour space)
+  | chanR | chanH     -- `a.r()`, `a.h()`   colour channel accessors (per colour space); `r()` is also the radius of a PolarVec
   | compZ             -- `a.z()`            component accessor (per space)
   | render       -- `render(.., &Shader::new(|_, _| vertex(a, ()), ..), ..)`
   deriving DecidableEq, Repr, Inhabited
@@ -343,7 +343,12 @@ def ty1 (o : Op1) (x : Ty) : Option Ty :=
     | .col s n sp => tyColour o s n sp
     | _ => none
   -- color.rs:343-417  r()/g()/b() for Color<R, Rgb|Rgba>, h()/s()/l() for Color<R, Hsl|Hsla>
-  | .chanR => match x with | .col s _ sp => if sp = .rgb ∨ sp = .rgba then some (.sc s) else none | _ => none
+  -- … and angle.rs:215, 232  PolarVec::r(), SphericalVec::r() -> f32 (the same method name)
+  | .chanR =>
+    match x with
+    | .col s _ sp => if sp = .rgb ∨ sp = .rgba then some (.sc s) else none
+    | .vec .f32 2 .polar | .vec .f32 3 .spherical => some f32
+    | _ => none
   | .chanH => match x with | .col s _ sp => if sp = .hsl ∨ sp = .hsla then some (.sc s) else none | _ => none
   -- vec.rs:254-272, 313-332, point.rs:131-150  z() for Vector<R, Real<3,B>>, Vector<R, Proj4>, Point<R, Real<3,B>>
   | .compZ =>
